@@ -146,8 +146,19 @@ func (s *sgen) size() string {
 var timeLits = []string{"2019-03-11 12:34:55", "2019-03-11", "1552307695000000000", "1552307695000000123", "0", "-7", "2019-03-11T12:34:55Z", "11/03/2019 12:34:55",
 	"2019/03/11 12:34", "2019-03-11 12:34:55.123", "Mar 11, 2019 2:34:55 PM", "garbage", ""}
 
+// time points with a sub-second part, written with the zone as DateTime.String() writes it: the fraction must survive
+// print and re-parse whatever its trailing zeros (.5 and .25 are what time.Time.String() makes of .500 and .250)
+var fracLits = []string{"2019-03-11 12:34:44.500 +0000 UTC", "2019-03-11 12:34:44.250 +0000 UTC", "2019-03-11 12:34:44.050 +0000 UTC",
+	"2019-03-11 12:34:44.001 +0000 UTC", "2019-03-11 12:34:44.000000001 +0000 UTC", "2019-03-11 12:34:44.5 +0000 UTC",
+	"2019-03-11 12:34:44.25 +0000 UTC", "2019-03-11 12:34:44.120 +0000", "2019-03-11 12:34:44.100000000 +0000 UTC",
+	"2019-03-11 12:34:45.123 +0000 UTC", "1969-12-31 23:59:59.900 +0000 UTC", "2019-03-11T12:34:44.700Z", "2019-03-11 12:34:44.990",
+	"1552307684500000000", "1552307684250000000", "1552307684050000000", "1552307684001000000", "-500000000", "-1", "1"}
+
 func (s *sgen) timeLit() string {
 	v := timeLits[s.r.Intn(len(timeLits))]
+	if s.r.Chance(1, 3) {
+		v = fracLits[s.r.Intn(len(fracLits))]
+	}
 	if s.r.Chance(1, 5) {
 		return "'" + v + "'"
 	}
